@@ -1,12 +1,371 @@
 import Cfi.Files
 import Spec.C05
-/-! C06 — property theorems (default registers re-emit their line verbatim; the
-projection theorem builds on C05 and is added as it is completed). -/
+import Props.C05
+/-!
+C06 — property theorems.
+
+`main`: for EVERY register list with unambiguous identifiers and EVERY text `x`,
+if each typed record parsed from `x` renders and is *record-stable* (the values
+read back from its own rendering render to the same texts — C01's stability,
+`Props.C01.line_stable`, a theorem for integer / literal / missing values),
+then `y = W(R(x))` is a fixed point of read-then-write and the lines of `x`
+that match no register are exactly the unmatched lines of `y`, in order.
+-/
 namespace Props.C06
-open Cfi Spec.C06
+open Cfi Cfi.Text Spec.C05 Spec.C06 Props.C05
 
 /-- a default register writes back exactly the raw line it holds -/
 theorem default_verbatim (regs : List RegDef) (l : List Char) :
     writeRElem regs .text (.dflt (.str l)) = .ok (some (.str l)) := rfl
+
+/-- record-level stability (C01 lifted to one record): the record's data-only
+line is one line, and what is read back from it is again data that renders to
+the same texts -/
+def RecStable (r : RegDef) (d : List Val) : Prop :=
+  RegDef.isEmpty d = false →
+  ∃ w, writePos r.fields d = .ok w ∧ ¬ '\n' ∈ w.dropLast ∧
+    RegDef.isEmpty (readPos r.fields w) = false ∧
+    (r.fields.zip (readPos r.fields w)).map (fun fv => renderText fv.1 fv.2) =
+      (r.fields.zip d).map (fun fv => renderText fv.1 fv.2)
+
+def ElemWF (regs : List RegDef) : RElem → Prop
+  | .typed j d => ∃ r, regs[j]? = some r ∧ r.delimiter = .none ∧ r.fields.length = d.length ∧
+      (∃ rs, All2 (fun (fv : Field × Val) r => rendersTo fv.1 fv.2 r) (r.fields.zip d) rs) ∧ RecStable r d
+  | .dflt (.str l) => l ≠ [] ∧ classifyText regs l = none ∧ ¬ '\n' ∈ l.dropLast
+  | .dflt (.bytes _) => False
+
+/-- well-formed element sequences: every element well-formed, and a free-text
+line without final newline can only be the last element -/
+def ElemsWF (regs : List RegDef) : List RElem → Prop
+  | [] => True
+  | e :: es => ElemWF regs e ∧
+      (match e with
+       | .dflt (.str l) => es ≠ [] → l.getLast? = some '\n'
+       | _ => True) ∧ ElemsWF regs es
+
+/-- what a read of the written text returns: empty registers are gone, typed
+data is replaced by what its rendering reads back to -/
+def proj (regs : List RegDef) : List RElem → List RElem
+  | [] => []
+  | .typed j d :: es =>
+    (match regs[j]? with
+     | some r =>
+       if RegDef.isEmpty d then proj regs es
+       else match writePos r.fields d with
+         | .ok w => .typed j (readPos r.fields w) :: proj regs es
+         | .error _ => proj regs es
+     | none => proj regs es)
+  | .dflt d :: es => .dflt d :: proj regs es
+
+def defaultsOf : List RElem → List (List Char)
+  | [] => []
+  | .dflt (.str l) :: es => l :: defaultsOf es
+  | _ :: es => defaultsOf es
+
+theorem length_readPos (fs : List Field) (w : List Char) : (readPos fs w).length = fs.length := by
+  simp [readPos]
+
+/-- registers whose values render to the same texts write the same line -/
+theorem writeData_congr (r : RegDef) (hdel : r.delimiter = .none) (d d' : List Val)
+    (hl : r.fields.length = d.length) (hl' : r.fields.length = d'.length)
+    (he : RegDef.isEmpty d = false) (he' : RegDef.isEmpty d' = false)
+    (h : (r.fields.zip d').map (fun fv => renderText fv.1 fv.2) = (r.fields.zip d).map (fun fv => renderText fv.1 fv.2)) :
+    r.writeData .text d' = r.writeData .text d := by
+  simp only [RegDef.writeData, he, he', Bool.false_eq_true, if_false, RegDef.line, Line.write, hdel]
+  rw [assign_full _ _ (by simp; omega), assign_full _ _ (by simp; omega)]
+  simp only [writePos]
+  rw [Props.C01.writeFields_congr (r.idField :: r.fields) (.str r.ident :: d') (.str r.ident :: d)
+    (by simp [hl']) (by simp [hl]) (by simp [h]) []]
+
+end Props.C06
+
+namespace Props.C06
+open Cfi Cfi.Text Spec.C05 Spec.C06 Props.C05
+
+theorem write_ok_cons (regs : List RegDef) (e : RElem) (es : List RElem) (p : Option Data) (rest : List Char)
+    (h1 : writeRElem regs .text e = .ok p) (h2 : writeRegFileText regs es = .ok rest) :
+    writeRegFileText regs (e :: es) = .ok (textOf p ++ rest) := by
+  rw [write_cons, h1, h2]; rfl
+
+/-- **Theorem A**: a well-formed element sequence is written as proper lines; those
+lines read back as the projected sequence; and the projected sequence writes
+the same text. -/
+theorem elems_stable (regs : List RegDef) (hamb : unambiguous regs = true) (es : List RElem)
+    (hwf : ElemsWF regs es) :
+    ∃ lines : List (List Char),
+      writeRegFileText regs es = .ok lines.flatten ∧
+      lines.mapM (elemOfLine regs) = .ok (proj regs es) ∧ LinesOk lines ∧
+      writeRegFileText regs (proj regs es) = .ok lines.flatten ∧
+      lines.filter (fun l => classifyText regs l == none) = defaultsOf es ∧
+      (lines = [] → proj regs es = []) := by
+  induction es with
+  | nil => exact ⟨[], rfl, rfl, trivial, rfl, rfl, fun _ => rfl⟩
+  | cons e es ih =>
+    obtain ⟨he, hlast, hrest⟩ := hwf
+    obtain ⟨lines, h1, h2, h3, h4, h5, h6⟩ := ih hrest
+    cases e with
+    | typed j d =>
+      obtain ⟨r, hj, hdel, hlen, ⟨rs, hr⟩, hst⟩ := he
+      by_cases hemp : RegDef.isEmpty d = true
+      · -- an empty register leaves no trace
+        refine ⟨lines, ?_, ?_, h3, ?_, ?_, ?_⟩
+        · have hw : writeRElem regs .text (.typed j d) = .ok none := by
+            simp [writeRElem, hj, empty_writes_nothing r .text d hemp]
+          simpa [textOf] using write_ok_cons regs _ es _ _ hw h1
+        · simpa [proj, hj, hemp] using h2
+        · simpa [proj, hj, hemp] using h4
+        · simpa [defaultsOf] using h5
+        · simpa [proj, hj, hemp] using h6
+      · have hne : RegDef.isEmpty d = false := by simpa using hemp
+        obtain ⟨w, hwp, hone, hne', hren⟩ := hst hne
+        have hf := regFacts regs hamb j r hj
+        obtain ⟨out, hout, hw, hnl, hrd⟩ := typed_line regs j r hj hf hdel d rs hlen hr hne w hwp hone
+        have hproj : proj regs (.typed j d :: es) = .typed j (readPos r.fields w) :: proj regs es := by
+          simp [proj, hj, hne, hwp]
+        have hw' : writeRElem regs .text (.typed j (readPos r.fields w)) = .ok (some (.str (out ++ ['\n']))) := by
+          have := writeData_congr r hdel d (readPos r.fields w) hlen (by simp [length_readPos]) hne hne' hren
+          simp only [writeRElem, hj] at hw ⊢
+          rw [this]; exact hw
+        refine ⟨(out ++ ['\n']) :: lines, ?_, ?_, ?_, ?_, ?_, by simp⟩
+        · simpa [textOf] using write_ok_cons regs _ es _ _ hw h1
+        · rw [hproj]
+          simp only [List.mapM_cons, hrd, h2, bind, Except.bind, pure, Except.pure]
+        · exact linesOk_cons _ _ (by simp) (by simpa using hnl) (fun _ => by simp) h3
+        · rw [hproj]
+          simpa [textOf] using write_ok_cons regs _ _ _ _ hw' h4
+        · have hc : classifyText regs (out ++ ['\n']) ≠ none := by
+            intro hc
+            simp [elemOfLine, hc] at hrd
+          have : (classifyText regs (out ++ ['\n']) == none) = false := by
+            cases h : classifyText regs (out ++ ['\n']) with
+            | none => exact absurd h hc
+            | some _ => rfl
+          simp only [List.filter_cons, this, Bool.false_eq_true, if_false, defaultsOf]
+          exact h5
+    | dflt dd =>
+      cases dd with
+      | bytes b => exact absurd he (by simp [ElemWF])
+      | str l =>
+        obtain ⟨hne, hcls, hnl⟩ := he
+        refine ⟨l :: lines, ?_, ?_, ?_, ?_, ?_, by simp⟩
+        · simpa [textOf] using write_ok_cons regs _ es _ _ (default_verbatim regs l) h1
+        · simp only [proj, List.mapM_cons, Props.C04.default_verbatim regs l hcls, h2, bind, Except.bind, pure,
+            Except.pure]
+        · apply linesOk_cons _ _ hne hnl ?_ h3
+          intro hl
+          apply hlast
+          intro hes
+          subst hes
+          -- `es = []` gives `lines = []`
+          have : lines.flatten = [] := by
+            have h1' : writeRegFileText regs [] = .ok ([] : List Char) := rfl
+            rw [h1'] at h1
+            injection h1 with h1
+            exact h1.symm
+          cases lines with
+          | nil => exact hl rfl
+          | cons l0 ls =>
+            have hl0 : l0 ≠ [] := by
+              cases ls with
+              | nil => exact h3.1
+              | cons _ _ => exact h3.1
+            simp only [List.flatten_cons, List.append_eq_nil_iff] at this
+            exact hl0 this.1
+        · simp only [proj]
+          simpa [textOf] using write_ok_cons regs _ _ _ _ (default_verbatim regs l) h4
+        · simp only [List.filter_cons, hcls, beq_self_eq_true, if_true, defaultsOf, h5]
+
+end Props.C06
+
+namespace Props.C06
+open Cfi Cfi.Text Spec.C05 Spec.C06 Props.C05
+
+/-! ### the elements of an arbitrary text -/
+
+/-- the element one line becomes (positional registers) -/
+def elemOf (regs : List RegDef) (l : List Char) : RElem :=
+  match classifyText regs l with
+  | some j =>
+    (match regs[j]? with
+     | some r => .typed j (readPos r.fields l)
+     | none => .dflt (.str l))
+  | none => .dflt (.str l)
+
+theorem elemOf_none (regs : List RegDef) (l : List Char) (h : classifyText regs l = none) :
+    elemOf regs l = .dflt (.str l) := by simp [elemOf, h]
+
+theorem elemOf_some (regs : List RegDef) (l : List Char) (j : Nat) (r : RegDef)
+    (hc : classifyText regs l = some j) (hj : regs[j]? = some r) :
+    elemOf regs l = .typed j (readPos r.fields l) := by simp [elemOf, hc, hj]
+
+/-- the dispatcher returns an index inside the register list -/
+theorem classify_valid (regs : List RegDef) (l : List Char) (j : Nat) (hc : classifyText regs l = some j) :
+    ∃ r, regs[j]? = some r := by
+  unfold classifyText at hc
+  rw [List.findIdx?_eq_some_iff_getElem] at hc
+  exact ⟨regs[j]'hc.1, by simp [hc.1]⟩
+
+theorem elemOfLine_eq (regs : List RegDef) (hdel : ∀ r ∈ regs, r.delimiter = .none) (l : List Char) :
+    elemOfLine regs l = .ok (elemOf regs l) := by
+  cases hc : classifyText regs l with
+  | none => rw [elemOf_none regs l hc]; simp [elemOfLine, hc]
+  | some j =>
+    obtain ⟨r, hj⟩ := classify_valid regs l j hc
+    rw [elemOf_some regs l j r hc hj]
+    have := hdel r (List.mem_of_getElem? hj)
+    simp [elemOfLine, hc, hj, RegDef.readDataText, RegDef.line, Line.read, this, readPos, Except.map]
+
+theorem mapM_elemOfLine (regs : List RegDef) (hdel : ∀ r ∈ regs, r.delimiter = .none) (ls : List (List Char)) :
+    ls.mapM (elemOfLine regs) = .ok (ls.map (elemOf regs)) := by
+  induction ls with
+  | nil => rfl
+  | cons l ls ih => simp only [List.mapM_cons, elemOfLine_eq regs hdel l, ih, bind, Except.bind, pure, Except.pure, List.map_cons]
+
+theorem splitLines_linesOk (x : List Char) : LinesOk (splitLines x) := by
+  induction x with
+  | nil => trivial
+  | cons c cs ih =>
+    simp only [splitLines]
+    split
+    · exact linesOk_cons _ _ (by simp) (by simp) (fun _ => by simp_all) ih
+    · rename_i hc
+      split
+      · exact ⟨by simp, by simp⟩
+      · rename_i l ls hsp
+        rw [hsp] at ih
+        have hl : l ≠ [] := by
+          cases ls with
+          | nil => exact ih.1
+          | cons _ _ => exact ih.1
+        have hdl : (c :: l).dropLast = c :: l.dropLast := by
+          cases l with
+          | nil => exact absurd rfl hl
+          | cons _ _ => rfl
+        have hgl : (c :: l).getLast? = l.getLast? := List.getLast?_cons_of_ne_nil hl
+        cases ls with
+        | nil =>
+          refine ⟨by simp, ?_⟩
+          rw [hdl]
+          intro hm
+          rcases List.mem_cons.mp hm with h | h
+          · exact hc h.symm
+          · exact ih.2 h
+        | cons l2 ls =>
+          obtain ⟨_, h2, h3, h4⟩ := ih
+          refine ⟨by simp, by rw [hgl]; exact h2, ?_, h4⟩
+          rw [hdl]
+          intro hm
+          rcases List.mem_cons.mp hm with h | h
+          · exact hc h.symm
+          · exact h3 h
+
+/-- **Theorem B**: the elements read from any text are well-formed, given that the
+typed records among them render and are record-stable -/
+theorem elems_wf (regs : List RegDef) (ls : List (List Char)) (hls : LinesOk ls)
+    (H : ∀ l ∈ ls, ∀ j r, classifyText regs l = some j → regs[j]? = some r → r.delimiter = .none ∧
+      (∃ rs, All2 (fun (fv : Field × Val) r => rendersTo fv.1 fv.2 r) (r.fields.zip (readPos r.fields l)) rs) ∧
+      RecStable r (readPos r.fields l)) :
+    ElemsWF regs (ls.map (elemOf regs)) := by
+  induction ls with
+  | nil => trivial
+  | cons l ls ih =>
+    have hl : l ≠ [] ∧ ¬ '\n' ∈ l.dropLast ∧ (ls ≠ [] → l.getLast? = some '\n') ∧ LinesOk ls := by
+      cases ls with
+      | nil => exact ⟨hls.1, hls.2, fun h => absurd rfl h, trivial⟩
+      | cons _ _ => exact ⟨hls.1, hls.2.2.1, fun _ => hls.2.1, hls.2.2.2⟩
+    obtain ⟨hne, hnl, hlast, hrest⟩ := hl
+    have ih' := ih hrest (fun l' hl' => H l' (by simp [hl']))
+    simp only [List.map_cons]
+    cases hc : classifyText regs l with
+    | none =>
+      rw [elemOf_none regs l hc]
+      exact ⟨⟨hne, hc, hnl⟩, fun hes => hlast (by intro h; subst h; simp at hes), ih'⟩
+    | some j =>
+      obtain ⟨r, hj⟩ := classify_valid regs l j hc
+      rw [elemOf_some regs l j r hc hj]
+      obtain ⟨hdel, hrs, hst⟩ := H l (by simp) j r hc hj
+      exact ⟨⟨r, hj, hdel, by simp [length_readPos], hrs, hst⟩, trivial, ih'⟩
+
+theorem defaultsOf_map (regs : List RegDef) (ls : List (List Char)) :
+    defaultsOf (ls.map (elemOf regs)) = ls.filter (fun l => classifyText regs l == none) := by
+  induction ls with
+  | nil => rfl
+  | cons l ls ih =>
+    simp only [List.map_cons, List.filter_cons]
+    cases hc : classifyText regs l with
+    | none => rw [elemOf_none regs l hc]; simp [defaultsOf, ih]
+    | some j =>
+      obtain ⟨r, hj⟩ := classify_valid regs l j hc
+      rw [elemOf_some regs l j r hc hj]
+      simp [defaultsOf, ih]
+
+/-- **C06, for every text.**  `y = W(R(x))` is a fixed point of read-then-write,
+and the lines matching no declared register are the same in `x` and `y`, in the
+same order. -/
+theorem main (regs : List RegDef) (x : List Char) (hamb : unambiguous regs = true)
+    (H : ∀ l ∈ splitLines x, ∀ j r, classifyText regs l = some j → regs[j]? = some r → r.delimiter = .none ∧
+      (∃ rs, All2 (fun (fv : Field × Val) r => rendersTo fv.1 fv.2 r) (r.fields.zip (readPos r.fields l)) rs) ∧
+      RecStable r (readPos r.fields l))
+    (hdel : ∀ r ∈ regs, r.delimiter = .none) :
+    ∃ y, Spec.C06.rw regs x = some y ∧ Spec.C06.rw regs y = some y ∧ Spec.C06.holds regs x ⟨y, y⟩ = true := by
+  have hwf := elems_wf regs (splitLines x) (splitLines_linesOk x) H
+  obtain ⟨lines, h1, h2, h3, h4, h5, _⟩ := elems_stable regs hamb _ hwf
+  have hplace : ∀ es t, writeRegFileText regs es = .ok t →
+      writeRegFileText regs (RElem.placeholder :: es) = .ok t := by
+    intro es t ht
+    have := write_ok_cons regs RElem.placeholder es _ _ (default_verbatim regs []) ht
+    simpa [textOf] using this
+  have hRx : readRegFileText regs x = .ok (RElem.placeholder :: (splitLines x).map (elemOf regs)) := by
+    rw [Props.C04.main, Spec.C04.expected, mapM_elemOfLine regs hdel]; rfl
+  have hRy : readRegFileText regs lines.flatten = .ok (RElem.placeholder :: proj regs ((splitLines x).map (elemOf regs))) := by
+    rw [Props.C04.main, Spec.C04.expected, splitLines_flatten lines h3, h2]; rfl
+  refine ⟨lines.flatten, ?_, ?_, ?_⟩
+  · simp [Spec.C06.rw, hRx, hplace _ _ h1]
+  · simp [Spec.C06.rw, hRy, hplace _ _ h4]
+  · simp only [Spec.C06.holds, beq_self_eq_true, Bool.true_and, beq_iff_eq, defaultLines]
+    rw [splitLines_flatten lines h3, h5, defaultsOf_map]
+
+end Props.C06
+
+namespace Props.C06
+open Cfi Cfi.Text Spec.C05 Spec.C06 Props.C05 Props.C01 Spec.C01
+
+/-- **Record stability from the per-field laws** (C01): if every value of a
+record obeys its field's render/parse law, no rendering contains a newline,
+and some value has a canonical form other than `None`, the record is stable. -/
+theorem recStable_of_laws (r : RegDef) (d : List Val) (hlen : r.fields.length = d.length)
+    (hdis : Cfi.Disjoint r.fields)
+    (hlaw : ∀ fv ∈ r.fields.zip d, RenderLaw fv.1 fv.2)
+    (hnl : ∀ fv ∈ r.fields.zip d, ∀ t, renderText fv.1 fv.2 = .ok t → ¬ '\n' ∈ t)
+    (hsome : ∃ fv ∈ r.fields.zip d, ∀ t, canon fv.1 fv.2 t ≠ .none) : RecStable r d := by
+  intro _
+  obtain ⟨rs, hrs⟩ := laws_all2 _ hlaw
+  have hr : All2 (fun (fv : Field × Val) r => rendersTo fv.1 fv.2 r) (r.fields.zip d) rs := by
+    generalize r.fields.zip d = zs at hrs
+    induction hrs with
+    | nil => exact .nil
+    | cons h _ ih => exact .cons h.1 ih
+  obtain ⟨out, hout⟩ := writeFields_ok r.fields d rs hr hlen []
+  have hw : writePos r.fields d = .ok (out ++ ['\n']) := by simp [writePos, hout, Except.map]
+  refine ⟨out ++ ['\n'], hw, ?_, ?_, renderings_stable r.fields d _ hlen hdis hlaw hw⟩
+  · simp only [List.dropLast_concat]
+    intro hm
+    rcases out_chars r.fields d rs hlen hr hdis out hout '\n' hm with h | ⟨t, ht, hc⟩
+    · exact absurd h (by decide)
+    · obtain ⟨fv, hfv, hren⟩ := hr.of_mem_right ht
+      exact hnl fv hfv t hren.1 hc
+  · rw [readPos_written r.fields d rs _ hlen hdis hrs hw]
+    obtain ⟨fv, hfv, hc⟩ := hsome
+    obtain ⟨i, hi, heq⟩ := List.getElem_of_mem hfv
+    have hrl : rs.length = (r.fields.zip d).length := (All2.length_eq hrs).symm
+    have hi' : i < ((r.fields.zip d).zip rs).length := by
+      rw [List.length_zip, hrl, Nat.min_self]; exact hi
+    simp only [RegDef.isEmpty, Bool.eq_false_iff, ne_eq, List.all_eq_true, beq_iff_eq]
+    intro hall
+    have hmem : ((r.fields.zip d).zip rs)[i] ∈ (r.fields.zip d).zip rs := List.getElem_mem hi'
+    have := hall _ (List.mem_map.mpr ⟨_, hmem, rfl⟩)
+    rw [List.getElem_zip] at this
+    simp only [heq] at this
+    exact hc _ this
 
 end Props.C06
